@@ -723,6 +723,11 @@ func migrateRuleSet(lang i18n.Language, r RuleSet, validDests map[uuids.UUID]boo
 		}
 		currencyAmounts := make(map[string]decimal.Decimal, len(countryConfigs))
 		for _, countryCfg := range countryConfigs {
+			// the current reader doesn't allow amounts which are expensive to write out
+			if exp := countryCfg.Amount.Exponent(); exp < -100 || exp > 100 {
+				return nil, "", nil, fmt.Errorf("unable to migrate airtime ruleset with amount out of range")
+			}
+
 			// check if we already have a configuration for this currency
 			existingAmount, alreadyDefined := currencyAmounts[countryCfg.CurrencyCode]
 			if alreadyDefined && existingAmount != countryCfg.Amount {
